@@ -539,3 +539,156 @@ func authTable() []authRow {
 	)
 	return rows
 }
+
+// ---------- C03b: the same rows under varied arguments, without the required witnesses ----------
+
+// AuthArgGrid re-runs every mutating row that needs a witness with one argument at a time replaced
+// by a boundary value (integers -1, 0, 1, 2^40; byte strings empty and one byte short; strings
+// empty; booleans flipped; arrays emptied), signed by a stranger or by one member short of the
+// Alphabet threshold: whatever the arguments are, such a call must be inert.
+type AuthArgGrid struct {
+	*AuthGrid
+}
+
+type authArgCase struct {
+	Row, Arg, Val int
+	Signer        string
+}
+
+func NewAuthArgGrid(n int) *AuthArgGrid { return &AuthArgGrid{NewAuthGrid(n)} }
+func (d *AuthArgGrid) Name() string     { return fmt.Sprintf("witnessless-arguments-n%d", d.N) }
+func (d *AuthArgGrid) Rule() string {
+	return "every mutating table row that requires a witness x one argument position replaced by a boundary value of its type x {stranger, floor(2n/3) single members}; non-trivial = the position exists and the value differs from the row's own; distinct by (row, position, value, signer set)"
+}
+func (d *AuthArgGrid) Extra() map[string]any { return nil }
+
+func (d *AuthArgGrid) Cases(string) []GridCase {
+	var out []GridCase
+	for i, r := range authTable() {
+		if r.Kind != "" && r.Kind != "redesignate" {
+			continue
+		}
+		if needsNoWitness(r) {
+			continue
+		}
+		for a := 0; a < 8; a++ {
+			for v := 0; v < 4; v++ {
+				for _, s := range []string{"S", "M-minority"} {
+					out = append(out, GridCase{Name: fmt.Sprintf("%s.%s#%d arg%d:=alt%d by %s", r.Contract, r.Method, i, a, v, s), Data: authArgCase{i, a, v, s}})
+				}
+			}
+		}
+	}
+	return out
+}
+
+func needsNoWitness(r authRow) bool {
+	for _, alt := range r.Req {
+		free := true
+		for _, s := range alt {
+			if s != "any" {
+				free = false
+			}
+		}
+		if free {
+			return true
+		}
+	}
+	return false
+}
+
+// altValue returns the v-th boundary value for an argument of a's type (ok=false: none).
+func altValue(a any, v int) (any, bool) {
+	switch t := a.(type) {
+	case int64:
+		return []int64{-1, 0, 1, 1 << 40}[v], true
+	case int:
+		return []int64{-1, 0, 1, 1 << 40}[v], true
+	case []byte:
+		switch v {
+		case 0:
+			return []byte{}, true
+		case 1:
+			if len(t) > 1 {
+				return append([]byte{}, t[:len(t)-1]...), true
+			}
+		}
+	case string:
+		if v == 0 {
+			return "", true
+		}
+	case bool:
+		if v == 0 {
+			return !t, true
+		}
+	case []any:
+		if v == 0 {
+			return []any{}, true
+		}
+	case util.Uint160:
+		if v == 0 {
+			return []byte{}, true
+		}
+	}
+	return nil, false
+}
+
+func (d *AuthArgGrid) Eval(x *Exec, root *Node, gc GridCase) GridResult {
+	w := x.W
+	c := gc.Data.(authArgCase)
+	r := d.rows[c.Row]
+	args := append([]any{}, r.Args(d.AuthGrid, w)...)
+	if c.Arg >= len(args) {
+		return GridResult{Outcome: "no-such-position"}
+	}
+	alt, ok := altValue(args[c.Arg], c.Val)
+	if !ok || fmt.Sprint(alt) == fmt.Sprint(args[c.Arg]) {
+		return GridResult{Outcome: "no-such-value"}
+	}
+	args[c.Arg] = alt
+	h := w.Contracts[r.Contract].Hash
+	signers := d.witnesses(w, c.Signer, nil)
+	// a minority that happens to contain a key the row names is not "without the required witnesses"
+	has := map[util.Uint160]bool{}
+	for _, s := range signers {
+		has[s] = true
+	}
+	for _, altReq := range r.Req {
+		ok := true
+		for _, s := range altReq {
+			if s == "any" {
+				continue
+			}
+			for _, a := range d.resolve(w, s) {
+				if !has[a] {
+					ok = false
+				}
+			}
+		}
+		if ok {
+			return GridResult{Outcome: "signer-set-sufficient"}
+		}
+	}
+	var adv uint32
+	if r.Kind == "redesignate" {
+		rm := w.E.NativeHash(w.T, nativenames.Designation)
+		po, pn := x.Do(root, Call{Script: Script(rm, "designateAsRole", int64(16), []any{d.aud.Pub()}), Signers: []util.Uint160{w.Comm}, Label: "re-designate the Inner Ring"})
+		if !po.Halt {
+			hpanic("C03 re-designation: %s", po.Fault)
+		}
+		root = pn
+		adv = 1
+	}
+	o, after := x.Do(root, Call{Script: Script(h, r.Method, args...), Signers: signers, Adv: adv, Label: gc.Name})
+	diff := DiffDumps(w.FullDump(root.L), w.FullDump(after.L))
+	out := "refused"
+	if o.Halt {
+		out = "halted-without-effect"
+	}
+	var vs []*Violation
+	if len(diff) > 0 || len(o.Notifs) > 0 {
+		where := map[string]any{"n": d.N, "contract": r.Contract, "method": r.Method, "signers": c.Signer, "argument": c.Arg}
+		vs = append(vs, Viol("effect-without-witness", fmt.Sprintf("%s.%s with argument %d := %v under %s (required %v): halt=%v, storage diff %v, notifications %v", r.Contract, r.Method, c.Arg, alt, c.Signer, r.Req, o.Halt, diff, o.Notifs), where))
+	}
+	return GridResult{Outcome: out, Nontrivial: true, V: vs}
+}
